@@ -22,6 +22,20 @@ import (
 // Foreign is the family of "opaque foreign Go values" the harness feeds in.
 type Foreign struct{ T int }
 
+// ForeignPanics is a foreign value whose own MarshalJSON method panics (t = 7); ForeignBadErr one whose MarshalJSON
+// returns an error whose Error method panics (t = 8).
+type ForeignPanics struct{ T int }
+
+func (ForeignPanics) MarshalJSON() ([]byte, error) { panic("ForeignPanics.MarshalJSON") }
+
+type badErr struct{}
+
+func (badErr) Error() string { panic("badErr.Error") }
+
+type ForeignBadErr struct{ T int }
+
+func (ForeignBadErr) MarshalJSON() ([]byte, error) { return nil, badErr{} }
+
 func hexs(b []byte) string { return hex.EncodeToString(b) }
 
 func decCanon(d decimal128.Decimal) string {
@@ -181,6 +195,10 @@ func canonD(v any, sb *strings.Builder, depth int) {
 		sb.WriteString("}")
 	case Foreign:
 		fmt.Fprintf(sb, "foreign:%d", v.T)
+	case ForeignPanics:
+		fmt.Fprintf(sb, "foreign:%d", v.T)
+	case ForeignBadErr:
+		fmt.Fprintf(sb, "foreign:%d", v.T)
 	default:
 		fmt.Fprintf(sb, "GO<%T>", v)
 	}
@@ -288,6 +306,12 @@ func untag(v any) (any, error) {
 			t, err := strconv.Atoi(string(v["t"].(json.Number)))
 			if err != nil {
 				return nil, err
+			}
+			switch t {
+			case 7:
+				return ForeignPanics{T: t}, nil
+			case 8:
+				return ForeignBadErr{T: t}, nil
 			}
 			return Foreign{T: t}, nil
 		case "nilslice":
